@@ -1,5 +1,6 @@
 pub mod common;
 pub mod lap;
+pub mod aborts;
 pub mod c01;
 pub mod c02;
 pub mod text;
